@@ -474,10 +474,7 @@ func (c *Channel) subChannelStateMap() (states channel.StateMap, err error) {
 
 // ensureRegistered ensures that the channel is registered.
 func (c *Channel) ensureRegistered(ctx context.Context) error {
-	phase := c.Phase()
-	if phase == channel.Registered ||
-		phase == channel.Progressing ||
-		phase == channel.Progressed {
+	if c.treeRegistered(ctx) {
 		return nil
 	}
 
@@ -500,6 +497,33 @@ func (c *Channel) ensureRegistered(ctx context.Context) error {
 		err = ctx.Err()
 	}
 	return err
+}
+
+// treeRegistered returns whether the channel and all of its sub-channels are
+// in a registered phase.
+//
+// The phase of a sub-channel only follows the adjudicator events if the
+// sub-channel is watched. A sub-channel of a sub-channel is not (the watcher
+// supports one level of sub-channels), so it can still be in an off-chain phase
+// although its ancestors have been registered by the peer. Such a tree must be
+// registered by us before it can be withdrawn.
+func (c *Channel) treeRegistered(ctx context.Context) bool {
+	l, err := c.tryLockRecursive(ctx)
+	defer l.Unlock()
+	if err != nil {
+		return false
+	}
+
+	registered := true
+	err = c.applyRecursive(func(c *Channel) error {
+		switch c.machine.Phase() {
+		case channel.Registered, channel.Progressing, channel.Progressed:
+		default:
+			registered = false
+		}
+		return nil
+	})
+	return err == nil && registered
 }
 
 // awaitRegistered scans for an event indicating that the channel has been
